@@ -57,7 +57,7 @@ typedef ObjectCache<int, Obj*> OC;
 
 struct Op { char kind; int64_t a = 0, b = 0, c = 0; uint64_t d = 0; int e = 0; };
 struct Handle { OC::ItemPtr item = nullptr; OC::Borrow* borrow = nullptr; Obj* obj = nullptr; bool released = false; };
-struct Thread { std::vector<Op> ops; std::vector<Handle> h; int idx = 0; bool finished = false; int id = 0; };
+struct Thread { std::vector<Op> ops; std::vector<Handle> h; int idx = 0; bool finished = false; int id = 0; photon::thread* th = nullptr; };
 
 static OC* g_oc;
 static std::vector<Thread> g_thr;
@@ -73,7 +73,8 @@ static void ev(const char* fmt, ...) {
     if (!g_ev.empty()) g_ev += ",";
     g_ev += buf;
 }
-Obj::~Obj() { ev("d%d:%d:%d", g_cur, serial, refs); }
+static int cur_tid() { for (auto& t : g_thr) if (t.th == photon::CURRENT) return t.id; return -1; }
+Obj::~Obj() { ev("d%d:%d:%d", cur_tid(), serial, refs); }
 
 static void run_thread(Thread& me) {
     int t = me.id;
@@ -181,7 +182,7 @@ static void child_main(const std::string& line, int outfd) {
     photon::now = g_vclock;
 #endif
     g_oc = new OC(life, /*timer_cycle*/ 1ULL << 45, lim);
-    for (auto& t : g_thr) photon::thread_create(&thread_entry, &t, 256 * 1024);
+    for (auto& t : g_thr) t.th = photon::thread_create(&thread_entry, &t, 256 * 1024);
     bool alldone = false;
     for (int rounds = 0; rounds < 10000000; rounds++) {
         uint64_t p = g_progress;
